@@ -27,6 +27,36 @@ def _definite(v):
     return True
 
 
+def _reads(w):
+    try:
+        A.ref(w)
+        return True
+    except ValueError:
+        return False  # a reference that mentions role symbols only parses under a renaming
+
+
+def _same_shape(got, want):
+    """do the two values carry their parts under the same names / in the same positions?  (a result moved into a
+    private struct with other field names, or a tuple turned into a struct, cannot be compared part by part)"""
+    if want is None or got is None:
+        return True
+    if not A.is_form(want) and want[0] == "any":
+        return True
+    if A.is_form(want) or A.is_form(got):
+        return A.is_form(want) == A.is_form(got) or (not A.is_form(got) and got[0] in ("obj", "objf", "if", "match", "early")) or (not A.is_form(want) and want[0] in ("obj", "if"))
+    if want[0] != got[0]:
+        return got[0] in ("if", "match", "early", "obj") or want[0] in ("if", "match", "obj")
+    if want[0] == "struct":
+        kw = {k for k in want[1] if not str(k).startswith("__")}
+        kg = {k for k in got[1] if not str(k).startswith("__")}
+        return kw == kg and all(_same_shape(got[1][k], want[1][k]) for k in kw)
+    if want[0] == "tup":
+        return len(want[1]) == len(got[1]) and all(_same_shape(g, w) for g, w in zip(got[1], want[1]))
+    if want[0] == "some":
+        return _same_shape(got[1], want[1])
+    return True
+
+
 def _components(prefix, got, want):
     """pairwise components of two values for per-component reporting"""
     if want is not None and not A.is_form(want) and want[0] in ("struct", "match") and got is not None and not A.is_form(got) and got[0] == want[0]:
@@ -184,6 +214,9 @@ def match_modulo(got_by_case, want_by_case, roles, fixed_prefixes=("box.", "$"))
                 best = (dict(ren, **oren), bad, oren, dict(zip(s_roles, perm)))
     if best is None:
         return None, "no candidate renaming"
+    if len(scalars) > len(s_roles) + 0 and any(re.fullmatch(r"[a-z_][a-z0-9_]*", x) for x in scalars[len(s_roles):] if x not in ref_tokens):
+        # the code's value mentions plain local names the evaluator could not trace to an input: not a definite value
+        match_modulo.untraced = [x for x in scalars if re.fullmatch(r"[a-z_][a-z0-9_]*", x) and x not in ref_tokens]
     ren, bad, oren, sren = best
     def _refcanon(c):
         try:
@@ -324,12 +357,17 @@ def check_sites(prog, chk, pid):
             if _case_value.incomplete or not _definite(got[cname]):
                 partial[cname] = _case_value.incomplete[:1] or ["part of the value is unknown to the evaluator"]
             want[cname] = case["want"] if isinstance(case, dict) else case
+        match_modulo.untraced = []
         ren, why = match_modulo(got, want, ent.get("roles", []), fixed_prefixes=tuple(ent.get("fixed", ["box.", "$"])))
+        if ren is None and match_modulo.untraced and len(match_modulo.untraced) > len([r for r in ent.get("roles", []) if not r.endswith(".")]):
+            partial.setdefault(sorted(ent["cases"])[0], [f"the value mentions local names the evaluator could not trace to an input: {match_modulo.untraced[:4]}"])
         n += len(ent["cases"])
         short = path.replace("svgdx::", "")
         if ren is not None:
             for cname in ent["cases"]:
                 chk.ok("A17.site-algebra", f"{name}:{cname}", b.where(), f"{short} [{cname}]: {ent.get('watch', 'result')} <- {A.canon(got[cname])} equals the reference" + (f" with {ren}" if ren else ""))
+        elif "ret" in ent and not all(_same_shape(got[c], A.ref(want[c])) for c in ent["cases"] if _reads(want[c])):
+            chk.undecided("A17.site-algebra", name, b.where(), f"{short}: the result is carried in a differently shaped value than the reference describes (other field names, a struct for a tuple ...): e.g. {A.canon(got[sorted(ent['cases'])[0]])[:200]}; it cannot be compared part by part")
         elif partial:
             # the evaluator could not follow the code to a definite value in some case (an idiom it does not know): a
             # disagreement that rests on an unknown is not evidence of a wrong value
